@@ -21,7 +21,7 @@ ANCHOR_FILES = ['cirbo/core/circuit/operators.py', 'cirbo/core/circuit/circuit.p
 ASSUMPTIONS = ['vt.refsem truth tables define the value under each completion']
 REQUIRED = {'mon:evaluate_circuit.checked': 500, 'mon:evaluate_full_circuit.checked': 500,
             'mon:evaluate_circuit_outputs.checked': 500, 'monotone_pairs': 1000, 'optable_entries': 100,
-            'total_assignments': 100}
+            'total_assignments': 100, 'deep_circuits': 2}
 
 CUR = {'ctx': None, 'case': None, 'log': None}
 _cache = {}
@@ -32,6 +32,8 @@ def shards(tier, seed):
     budget = 40 if tier == 'quick' else 500
     out = [{'kind': 'random', 'count': per, 'budget_s': budget, 'max_g': 12 if tier == 'quick' else 24} for _ in range(15)]
     out.append({'kind': 'tables', 'budget_s': budget})
+    out.append({'kind': 'deep', 'count': 3 if tier == 'quick' else 30, 'budget_s': budget,
+                'depths': [1200, 2500, 4000] if tier == 'quick' else [900, 1000, 1100, 1500, 3000, 6000]})
     _out = out
     if tier == 'thorough':
         _out.append({'kind': 'suite', 'select': ['tests'], 'budget_s': 900})
@@ -39,7 +41,7 @@ def shards(tier, seed):
 
 
 def _ref(circuit):
-    if len(circuit.inputs) > 10 or circuit.size > 400:
+    if len(circuit.inputs) > 10 or circuit.size * (1 << len(circuit.inputs)) > 400 * 1024:
         raise KeyError('too large for the exhaustive oracle')
     net = refsem.net_of(circuit)
     key = (tuple(net.inputs), tuple(net.outputs), tuple(sorted(net.gates.items())))
@@ -171,7 +173,11 @@ def install(ctx):
 def check_case(case, ctx):
     from cirbo.core.circuit.operators import Undefined
     CUR['case'] = case
-    net = netgen.from_description(case['net'])
+    if case.get('kind') == 'deep':
+        net = netgen.deep_net(random.Random(case['dseed']), case['depth'], n_in=case.get('n_in', 3))
+        ctx.count('deep_circuits')
+    else:
+        net = netgen.from_description(case['net'])
     rng = random.Random(case.get('rseed', 0))
     try:
         c = netgen.build(net, rng=rng, shuffle_storage=case.get('shuffle', False))
@@ -229,7 +235,7 @@ def check_case(case, ctx):
         n_undef = sum(1 for v in p if v is None)
         n_def_gates = sum(1 for g, v in r2.items() if net.gates.get(g, ('INPUT',))[0] != 'INPUT' and (v is True or v is False))
         ctx.case('%s:%r' % (sh, p), n_undef >= 1 and n_def_gates >= 1, cls='shape:' + case.get('shape', '?'),
-                 sample={'net': case['net'], 'partial_assignment': [None if v is None else bool(v) for v in p],
+                 sample={'net': case.get('net', {'deep_chain_depth': case.get('depth')}), 'partial_assignment': [None if v is None else bool(v) for v in p],
                          'defined_gates': n_def_gates} if (n_undef >= 1 and n_def_gates >= 2) else None)
     CUR['log'] = None
     # offline monotonicity checker over the recorded histories
@@ -253,6 +259,9 @@ def check_case(case, ctx):
 
 
 def gen_case(rng, spec):
+    if spec.get('kind') == 'deep':
+        return {'kind': 'deep', 'shape': 'deep', 'depth': rng.choice(spec['depths']), 'dseed': rng.getrandbits(32),
+                'n_in': rng.randint(2, 3), 'rseed': rng.getrandbits(32), 'shuffle': False, 'edited': False}
     shape = rng.choice(netgen.SHAPES)
     net = netgen.rand_net(rng, shape=shape, max_in=5, max_g=spec.get('max_g', 12), max_arity=4)
     return {'kind': 'random', 'shape': shape, 'net': netgen.describe(net), 'rseed': rng.getrandbits(32),
